@@ -5,4 +5,6 @@ pub mod vanilla;
 
 pub use data::RegretParams;
 #[cfg(erikbrinkman_cfr_verif)]
+pub(crate) use data::SampledChance;
+#[cfg(erikbrinkman_cfr_verif)]
 pub(crate) use multinomial::Multinomial;
